@@ -167,8 +167,9 @@ func (v *c14View) fill(fr *c14Frame, b *cfg.Block) {
 	for i, n := range b.Nodes {
 		pt := core.Point{B: b, I: i}
 		if i == len(b.Nodes)-1 && cond != nil && len(b.Succs) == 2 {
-			if e, ok := n.(ast.Expr); ok && e == cond {
-				t, f := v.evalCond(fr, pt, e, cur)
+			// (a named condition comes back from BranchCond written out: same branch, other syntax node)
+			if e, ok := n.(ast.Expr); ok && (e == cond || b.Succs[0].Kind != cfg.KindSwitchCaseBody) {
+				t, f := v.evalCond(fr, pt, cond, cur)
 				v.edge(t, fr.blocks[b.Succs[0]], nil)
 				v.edge(f, fr.blocks[b.Succs[1]], nil)
 				return
